@@ -323,7 +323,7 @@ def validate_units(ctx, trace, module="DiesTrace", chunk=2500):
             what = "call not explainable by the navigation machines: %s" % json.dumps(ev)[:500]
         ctx.violation(sig, what, full, None)
         rejected += 1
-        if rejected >= 6:
+        if rejected >= 3:
             log("[c02] %d trace events rejected, remaining units are not validated" % rejected)
             break
         # continue with the unit after the one containing the rejected event
